@@ -21,16 +21,45 @@ open SkNet SkNet.LinOp SkNet.Convert
 
 /-- **denote_op.** Whatever expression `e` is evaluated successfully to an operator `o`
 (any matrices, any regularisation values, any coefficients), the dense matrix of `o` is the
-matrix `e` denotes: same shape, same entries. By structural induction over `OpExpr`. -/
-theorem denote_op (e : OpExpr) (o : Op) (h : e.eval = .ok o) :
+matrix `e` denotes: same shape, same entries. By structural induction over `OpExpr` (21 constructors: the six
+classes, negation, sum, difference, sum / difference with a csr matrix, scaling from the right and from the left,
+transposition — also of scipy's sum / scaled combinators —, left / right sparse product, type change, normalize and
+the three format conversions).
+Hypothesis `IntCastsExact`: an `astype(int)` inside `e` is applied to an operator whose stored parts are integers;
+the code casts the stored parts (sparse part and low-rank vectors of a SparseLR, the two factors of a CoNeighbor)
+one by one, so on other operands the result is *not* the cast of the denoted matrix (`astype_int_not_entrywise`). -/
+theorem denote_op (e : OpExpr) (o : Op) (hc : e.IntCastsExact) (h : e.eval = .ok o) :
     Mat.Eqv o.dense e.denote :=
-  (OpExpr.denote_spec e o h).2
+  (OpExpr.denote_spec e o hc h).2
+
+/-- **type change.** `astype(float64 | float32)` keeps the operator (ℚ has no float32 rounding: the harness compares
+those within the float32 tolerance); `astype(int)` truncates every stored part towards zero. -/
+theorem astype_float_keeps (o o' : Op) (dt : CastTo) (hdt : dt ≠ .int) (h : o.astype dt = .ok o') : o' = o :=
+  Op.astype_float hdt h
+
+/-- `astype` exists on SparseLR, Laplacian and CoNeighbor only (AttributeError on the others and on scipy's combinators) -/
+theorem astype_classes (o : Op) (dt : CastTo) :
+    (∃ o', o.astype dt = .ok o') ↔ (o.kind = .slr ∨ o.kind = .lap ∨ o.kind = .con) := by
+  cases o <;> simp [Op.astype, Op.kind]
+
+/-- the cast of the parts is not the cast of the matrix: `SparseLR(0, [(3/2, 2)])` denotes `[[3]]`, after `astype(int)`
+the low-rank vectors are `1` and `2` and the operator denotes `[[2]]` — hence the hypothesis `IntCastsExact` above -/
+theorem astype_int_not_entrywise :
+    ((OpExpr.astype (.slr ⟨1, 1, [[0]]⟩ [([3/2], [2])]) .int).eval.toOption.map fun o => o.dense.get 0 0) = some 2 ∧
+    ((OpExpr.slr ⟨1, 1, [[0]]⟩ [([3/2], [2])]).denote.cast .int).get 0 0 = 3 := by decide +kernel
+
+/-- truncation is towards zero, and integers are kept -/
+example : rtrunc (-3/2) = -1 ∧ rtrunc (7/2) = 3 ∧ rtrunc (-4) = -4 := by decide +kernel
+
+/-- `IntCastsExact` is satisfiable: integer parts are kept by the cast -/
+example : ((OpExpr.slr ⟨1, 2, [[2, -1]]⟩ [([3], [1, 0])]).eval.toOption.bind fun o => (o.astype .int).toOption.map fun o' =>
+    decide (o'.dense.get 0 0 = o.dense.get 0 0 ∧ o'.dense.get 0 1 = o.dense.get 0 1)) = some true := by decide +kernel
 
 /-- **Applying the operator to a vector is multiplying by the dense matrix it denotes**:
 `operator.dot(x)` for the value of any expression. -/
-theorem denote_op_dot (e : OpExpr) (o : Op) (h : e.eval = .ok o)
+theorem denote_op_dot (e : OpExpr) (o : Op) (hc : e.IntCastsExact) (h : e.eval = .ok o)
     (v y : Vec) (hy : o.dot v = .ok y) : y = e.denote.mulVec v := by
-  obtain ⟨hw, he⟩ := OpExpr.denote_spec e o h
+  obtain ⟨hw, he⟩ := OpExpr.denote_spec e o hc h
   unfold Op.dot at hy
   split at hy
   · rename_i hv
@@ -41,25 +70,50 @@ theorem denote_op_dot (e : OpExpr) (o : Op) (h : e.eval = .ok o)
 
 /-- the dot product is refused exactly when the length of the vector is not the number of columns
 of the denoted matrix -/
-theorem denote_op_dot_error (e : OpExpr) (o : Op) (h : e.eval = .ok o) (v : Vec) :
+theorem denote_op_dot_error (e : OpExpr) (o : Op) (hc : e.IntCastsExact) (h : e.eval = .ok o) (v : Vec) :
     (o.dot v = .error .valueError) ↔ v.length ≠ e.denote.nCol := by
-  obtain ⟨hw, he⟩ := OpExpr.denote_spec e o h
-  have hc : o.nCol = e.denote.nCol := by rw [← (Op.dense_shape o hw).2]; exact he.nCol
+  obtain ⟨hw, he⟩ := OpExpr.denote_spec e o hc h
+  have hcol : o.nCol = e.denote.nCol := by rw [← (Op.dense_shape o hw).2]; exact he.nCol
   unfold Op.dot
-  rw [hc]
+  rw [hcol]
   by_cases hv : v.length = e.denote.nCol <;> simp [hv]
 
 /-- **Transposed**: `operator.T.dot(x)` multiplies by the transposed dense matrix. -/
-theorem denote_op_transpose_dot (e : OpExpr) (o : Op)
+theorem denote_op_transpose_dot (e : OpExpr) (o : Op) (hc : e.IntCastsExact)
     (h : (OpExpr.transpose e).eval = .ok o) (v y : Vec) (hy : o.dot v = .ok y) :
     y = e.denote.transpose.mulVec v :=
-  denote_op_dot (.transpose e) o h v y hy
+  denote_op_dot (.transpose e) o hc h v y hy
+
+/-- **Adjoint**: `operator.H.dot(x)` (scipy's combinators re-dispatch `A.H + B.H`, `A.H * alpha` on the classes'
+own arithmetic) never raises on a vector of the right length and multiplies by the transposed dense matrix. -/
+theorem denote_op_hdot (e : OpExpr) (o : Op) (hc : e.IntCastsExact) (h : e.eval = .ok o)
+    (v : Vec) (hv : v.length = e.denote.nRow) : o.hdot v = .ok (e.denote.transpose.mulVec v) := by
+  obtain ⟨hw, he⟩ := OpExpr.denote_spec e o hc h
+  obtain ⟨a, ha, hwa, har, hac⟩ := Op.adjoint_ok hw
+  obtain ⟨_, hea⟩ := Op.adjoint_spec hw ha
+  have hlen : v.length = a.nCol := by rw [hac, ← (Op.dense_shape o hw).1, he.nRow]; exact hv
+  unfold Op.hdot
+  rw [ha]
+  show a.dot v = _
+  unfold Op.dot
+  rw [if_pos hlen, Op.matvec_eq_dense a v hwa hlen]
+  exact congrArg Except.ok (Mat.Eqv.mulVec (hea.trans (Mat.Eqv.transpose he)) v)
+
+/-- transposition is not vacuous on scipy's combinators: `(-Normalizer(A, 1)).T`, `(Laplacian(A) + Laplacian(A)).T`
+and `(2 * Polynome(A, c)).T` evaluate (after the repair F16n the three classes define `_adjoint`) -/
+example : ((OpExpr.transpose (.neg (.normalizer ⟨2, 2, [[0, 1], [0, 0]]⟩ 1))).eval.toOption.bind
+    fun o => (o.dot [1, 1]).toOption) = some [-3/4, -5/4] := by decide +kernel
+example : ((OpExpr.transpose (.add (.laplacian ⟨2, 2, [[0, 1], [0, 0]]⟩ 0 false [])
+    (.laplacian ⟨2, 2, [[0, 1], [0, 0]]⟩ 0 false []))).eval.toOption.bind
+    fun o => (o.dot [1, 0]).toOption) = some [2, -2] := by decide +kernel
+example : ((OpExpr.transpose (.rmul 2 (.polynome ⟨2, 2, [[0, 1], [0, 0]]⟩ [1, 1]))).eval.toOption.bind
+    fun o => (o.dot [1, 0]).toOption) = some [2, 2] := by decide +kernel
 
 /-- **2-d arrays**: `operator.dot(X)` (scipy stacks `_matvec` of the columns) is the matrix product
 by the dense matrix. -/
-theorem denote_op_dotMat (e : OpExpr) (o : Op) (h : e.eval = .ok o)
+theorem denote_op_dotMat (e : OpExpr) (o : Op) (hc : e.IntCastsExact) (h : e.eval = .ok o)
     (x y : Mat) (hy : o.dotMat x = .ok y) : Mat.Eqv y (e.denote.mul x) := by
-  obtain ⟨hw, he⟩ := OpExpr.denote_spec e o h
+  obtain ⟨hw, he⟩ := OpExpr.denote_spec e o hc h
   exact (Op.dotMat_eqv hw hy).2.trans (Mat.Eqv.mul he (Mat.Eqv.refl x))
 
 /-- **the 2-d branches of `_matvec`** (SparseLR, Normalizer and its transposed product, CoNeighbor) multiply
@@ -73,16 +127,16 @@ theorem matvec2d_normalizer (n : Normalizer) (x : Mat) (hx : x.nRow = n.adj.nCol
 /-- **every 2-d branch**: a direct call `operator._matvec(X)` with a 2-d array (SparseLR, Normalizer and its
 transposed product, Laplacian, CoNeighbor, Polynome's Horner loop on matrices) multiplies by the dense matrix of
 the expression -/
-theorem denote_op_matvec2d (e : OpExpr) (o : Op) (h : e.eval = .ok o)
+theorem denote_op_matvec2d (e : OpExpr) (o : Op) (hc : e.IntCastsExact) (h : e.eval = .ok o)
     (x y : Mat) (hx : x.nRow = o.nCol) (hy : o.matvec2d x = .ok y) : Mat.Eqv y (e.denote.mul x) := by
-  obtain ⟨hw, he⟩ := OpExpr.denote_spec e o h
+  obtain ⟨hw, he⟩ := OpExpr.denote_spec e o hc h
   exact (Op.matvec2d_eqv hw hx hy).trans (Mat.Eqv.mul he (Mat.Eqv.refl x))
 
 /-- **row, column and total sums of a SparseLR** are the sums of the dense matrix it denotes -/
-theorem slr_sums (e : OpExpr) (s : SLR) (h : e.eval = .ok (.slr s)) :
+theorem slr_sums (e : OpExpr) (s : SLR) (hc : e.IntCastsExact) (h : e.eval = .ok (.slr s)) :
     s.sum1 = e.denote.rowSums ∧ (∀ y, s.sum0 = .ok y → y = e.denote.transpose.rowSums) ∧
       s.sumAll = vsum e.denote.rowSums := by
-  obtain ⟨hw, he⟩ := OpExpr.denote_spec e _ h
+  obtain ⟨hw, he⟩ := OpExpr.denote_spec e _ hc h
   have h1 : s.sum1 = e.denote.rowSums := by rw [SLR.sum1_eq]; exact Mat.Eqv.rowSums he
   refine ⟨h1, fun y hy => ?_, by unfold SLR.sumAll; rw [h1]⟩
   rw [SLR.sum0_eq hw hy]
@@ -123,7 +177,9 @@ theorem normalizer_negative_regularization_pinned_wrong :
 program (each may use any operator bound before: `a + b`, then `a - b`, `a.T`, `2 * a` …) leaves every operator
 already bound exactly as it was; the environment only grows, by one operator per statement. This is what the code
 must refine (the harness re-evaluates the operands after every operation against their own denotation; an in-place
-update such as `low_rank_tuples +=` in `SparseLR.__add__`, or CoNeighbor's in-place arithmetic F16i, departs from it). -/
+update such as `low_rank_tuples +=` in `SparseLR.__add__`, or CoNeighbor's in-place arithmetic F16i, departs from it).
+[true by construction of the model — `Prog.run` appends to a list of values —: it states the reference the harness holds the
+code against, it says nothing about the code by itself] -/
 theorem prog_run_prefix (ss : List Stmt) (env env' : List Op) (h : Prog.run ss env = .ok env') :
     ∃ rest, env' = env ++ rest ∧ rest.length = ss.length := Prog.run_prefix ss env env' h
 
@@ -132,12 +188,12 @@ is applied as the dense matrix denoted by the expression tree obtained by unfold
 times its operands are used elsewhere in the program. -/
 theorem prog_run_denote (ss : List Stmt) (env : List Op) (h : Prog.run ss [] = .ok env) :
     ∃ trees, Prog.unfold ss [] = some trees ∧ trees.length = env.length ∧
-      ∀ (i : Nat) (t : OpExpr) (o : Op), trees[i]? = some t → env[i]? = some o →
+      ∀ (i : Nat) (t : OpExpr) (o : Op), trees[i]? = some t → env[i]? = some o → t.IntCastsExact →
         Mat.Eqv o.dense t.denote ∧ ∀ v y, o.dot v = .ok y → y = t.denote.mulVec v := by
   obtain ⟨trees, hu, hr⟩ := Prog.run_unfold ss [] [] env EnvRel.nil h
-  refine ⟨trees, hu, hr.1, fun i t o ht ho => ?_⟩
+  refine ⟨trees, hu, hr.1, fun i t o ht ho hc => ?_⟩
   have he := hr.2 i t o ht ho
-  exact ⟨denote_op t o he, fun v y hy => denote_op_dot t o he v y hy⟩
+  exact ⟨denote_op t o hc he, fun v y hy => denote_op_dot t o hc he v y hy⟩
 
 /-- non-vacuity: `a = SparseLR(S, [(x, y)])`, `b = Regularizer(A, 1)`, then `a + b`, `a - b`, `a.T` on the same `a` -/
 def exampleProg : List Stmt :=
@@ -167,19 +223,24 @@ theorem shared_operand_full_false : ¬ shared_operand_full := by
 
 /-- **what holds** (`…_partial`): when the two mentions are two separate objects — i.e. for operator expressions
 as trees, which is what `denote_op` is about — the product is the product by the denoted matrix. Missing with respect
-to `shared_operand_full`: object identity; the repair (pure `__neg__` / `__mul__`) would contradict the repository's own test. -/
+to `shared_operand_full`: object identity; the repair (pure `__neg__` / `__mul__`) would contradict the repository's own test.
+[an instance of `denote_op_dot`, kept as the `…_partial` companion DESIGN §6 asks for] -/
 theorem shared_operand_partial (p : SharedPattern) (a : Mat) (nz : Bool) (o : Op)
     (h : (OpExpr.sharedPattern p a nz).eval = .ok o) (v y : Vec) (hy : o.dot v = .ok y) :
     y = (OpExpr.sharedPattern p a nz).denote.mulVec v :=
-  denote_op_dot _ o h v y hy
+  denote_op_dot _ o (by cases p <;> simp [OpExpr.sharedPattern, OpExpr.IntCastsExact]) h v y hy
 
 /-! ## which expressions evaluate, which are refused -/
 
 /-- **Static typing is exact.** `OpExpr.type?` computes, from the classes and shapes alone (plus `check_format`'s
 emptiness test and the lengths of the low-rank vectors), the class and shape of the value of an expression or the
-exception Python raises (`ValueError` for a shape mismatch, `AttributeError` for `SparseLR + <other operator>` or a
-missing method, `TypeError` for a format conversion of a non-SparseLR operator). The evaluation of the model agrees
-with it on every expression: it never refuses a well-typed expression and never accepts an ill-typed one. -/
+exception Python raises (`ValueError` for a shape mismatch, `AttributeError` for a missing method such as
+`left_sparse_dot` / `astype` of a Normalizer, `TypeError` for a format conversion of a non-SparseLR operator).
+The evaluation of the model agrees with it on every expression: it never refuses a well-typed expression and never
+accepts an ill-typed one.  `PyErr.unsupported` is not an exception of Python: it marks the requests the model leaves out
+(a Normalizer without columns, a Laplacian without nodes, `operator ± csr matrix` and `normalize` for the classes that
+are not a SparseLR / CoNeighbor); for those the theorem says that model and typing leave them out together, nothing
+about the code, and the harness does not produce them. -/
 theorem eval_type_exact (e : OpExpr) : e.eval.map Op.ty = e.type? := OpExpr.eval_type e
 
 theorem eval_ok_iff (e : OpExpr) : (∃ o, e.eval = .ok o) ↔ (∃ t, e.type? = .ok t) := by
@@ -192,7 +253,7 @@ theorem eval_ok_iff (e : OpExpr) : (∃ o, e.eval = .ok o) ↔ (∃ t, e.type? =
     | ok o => exact ⟨o, rfl⟩
 
 /-- the dense denotation of a well-typed expression has the shape its static type announces -/
-theorem denote_shape (e : OpExpr) (t : Ty) (h : e.type? = .ok t) :
+theorem denote_shape (e : OpExpr) (t : Ty) (hc : e.IntCastsExact) (h : e.type? = .ok t) :
     e.denote.nRow = t.nRow ∧ e.denote.nCol = t.nCol := by
   rw [← eval_type_exact] at h
   cases he : e.eval with
@@ -200,17 +261,21 @@ theorem denote_shape (e : OpExpr) (t : Ty) (h : e.type? = .ok t) :
   | ok o =>
     rw [he] at h
     have ht : o.ty = t := Except.ok.inj h
-    obtain ⟨hw, hd⟩ := OpExpr.denote_spec e o he
-    obtain ⟨hr, hc⟩ := Op.dense_shape o hw
+    obtain ⟨hw, hd⟩ := OpExpr.denote_spec e o hc he
+    obtain ⟨hr, hcl⟩ := Op.dense_shape o hw
     subst ht
-    exact ⟨by rw [← hd.nRow, hr]; rfl, by rw [← hd.nCol, hc]; rfl⟩
+    exact ⟨by rw [← hd.nRow, hr]; rfl, by rw [← hd.nCol, hcl]; rfl⟩
 
 /-- every operator obtained by evaluating an expression is well formed (valid low-rank tuples, square Laplacian,
 composable CoNeighbor factors, square non-empty Polynome matrix), whatever the regularisations -/
 theorem eval_well_formed (e : OpExpr) (o : Op) (h : e.eval = .ok o) : o.WF := OpExpr.eval_wf e o h
 
 example : exampleExpr.type? = .ok ⟨.slr, 3, 2⟩ := by decide
-example : (OpExpr.add (.slr ⟨1, 1, [[1]]⟩ []) (.normalizer ⟨1, 1, [[1]]⟩ 0)).type? = .error .attributeError := by decide
+/-- after the repair F16q a SparseLR plus an operator of another class is scipy's sum operator (it was an AttributeError) -/
+example : (OpExpr.add (.slr ⟨1, 1, [[1]]⟩ []) (.normalizer ⟨1, 1, [[1]]⟩ 0)).type? = .ok ⟨.gen, 1, 1⟩ := by decide
+/-- `.H` re-dispatches: `(0 * Regularizer(A, 1) + Normalizer(A)).H` is `SparseLR + adjoint`, which needs that repair -/
+example : ((OpExpr.add (.rmul 0 (.regularizer ⟨2, 2, [[0, 1], [1, 0]]⟩ 1)) (.normalizer ⟨2, 2, [[0, 1], [1, 0]]⟩ 0)).eval.toOption.bind
+    fun o => (o.hdot [1, 2]).toOption) = some [2, 1] := by decide +kernel
 example : (OpExpr.leftDot ⟨2, 3, [[1, 0, 0], [0, 1, 0]]⟩ (.slr ⟨2, 2, [[1, 0], [0, 1]]⟩ [])).type? = .error .valueError := by
   decide
 
@@ -225,17 +290,34 @@ theorem regularizer_denote (a : Mat) (reg : Rat) :
   obtain ⟨s, hs⟩ := regularizer_ok a reg
   exact ⟨s, hs, (regularizer_dense hs).2⟩
 
-/-- **Normalizer**: product and transposed product (the repaired `_rmatvec`, finding F16) -/
-theorem normalizer_matvec (n : Normalizer) (v : Vec) (hv : v.length = n.adj.nCol) :
+/-- **Normalizer**: product and transposed product (the repaired `_rmatvec`, finding F16).
+Domain `0 < n_col`: the definition `A + reg · 1 1ᵀ / n_col` and the mean of the code divide by the number of columns;
+in ℚ a division by 0 is 0, numpy gives nan, so the statements are restricted to where both are the same thing
+(`OpExpr.eval` refuses a Normalizer without columns with `.unsupported`, the harness counts it as outside the domain). -/
+theorem normalizer_matvec (n : Normalizer) (v : Vec) (_hpos : 0 < n.adj.nCol) (hv : v.length = n.adj.nCol) :
     n.matvec v = n.dense.mulVec v := Normalizer.matvec_eq_dense n v hv
 
-theorem normalizer_rmatvec (n : Normalizer) (v : Vec) : n.rmatvec v = n.dense.transpose.mulVec v :=
+theorem normalizer_rmatvec (n : Normalizer) (v : Vec) (_hpos : 0 < n.adj.nCol) :
+    n.rmatvec v = n.dense.transpose.mulVec v :=
   Normalizer.rmatvec_eq_dense n v
 
-/-- **Normalizer** denotes `D⁺ (A + reg/n 1 1ᵀ)` with `D` the row sums of the regularised matrix -/
-theorem normalizer_denote (a : Mat) (reg : Rat) :
+/-- **Normalizer** denotes `D⁺ (A + reg/n 1 1ᵀ)` with `D` the row sums of the regularised matrix (`0 < n_col`) -/
+theorem normalizer_denote (a : Mat) (reg : Rat) (_hpos : 0 < a.nCol) :
     Mat.Eqv (Normalizer.init a reg).dense (rowNormalized (regularized a reg)) :=
   Normalizer.init_dense a reg
+
+/-- the domain guard of the evaluator: no Normalizer without columns, no Laplacian without nodes -/
+theorem eval_domain_guard (a : Mat) (reg : Rat) (nz : Bool) (sq : Vec) :
+    (a.nCol = 0 → (OpExpr.normalizer a reg).eval = .error .unsupported) ∧
+    (a.nRow = 0 → a.nCol = 0 → (OpExpr.laplacian a reg nz sq).eval = .error .unsupported) := by
+  constructor
+  · intro h; simp [OpExpr.eval, h]
+  · intro h1 h2; simp [OpExpr.eval, h1, h2]
+
+/-- a 2-d array without columns is refused (`scipy` cannot stack no column): `operator.dot(zeros((n, 0)))` -/
+theorem dotMat_no_column (o : Op) (x : Mat) (hr : x.nRow = o.nCol) (hc : x.nCol = 0) :
+    o.dotMat x = .error .valueError := by
+  unfold Op.dotMat; simp [hr, hc]
 
 /-- before the repair `Normalizer._transpose` returned the operator itself: on the asymmetric
 `A = [[0,2,0],[0,0,0],[1,0,3]]` the product `N x` differs from `Nᵀ x` (witness replayed in corpus/C15.jsonl) -/
@@ -294,7 +376,11 @@ theorem polynome_transpose (m : Mat) (hsq : m.nCol = m.nRow) (cs : List Rat) :
     Mat.Eqv (polySum m.transpose cs 0) (polySum m cs 0).transpose := by
   rw [← powerSum_eq_polySum, ← powerSum_eq_polySum]; exact Polynome.powerSum_transpose m hsq cs 0
 
-/-- a Polynome is refused exactly for no coefficient, an empty matrix (`check_format`) or a non-square one -/
+/-- a Polynome of the model is refused exactly for no coefficient, a null matrix or a non-square one.
+Exact for the model only: `Mat` has no notion of stored entries, `isNull` stands for `nnz == 0` of `check_format`;
+a csr matrix whose stored entries are all explicit zeros is null here and accepted by the code
+(`Polynome(Z, [1, 2]).dot(x) = x`, `CoNeighbor(Z).dot(x) = 0`): such matrices are outside the model and the harness
+never builds them (`_no_hidden_zero`). -/
 theorem polynome_init_error (a : Mat) (cs : List Rat) :
     (∃ p, Polynome.init a cs = .ok p) ↔ (cs ≠ [] ∧ a.isNull = false ∧ a.nRow = a.nCol) := by
   unfold Polynome.init
@@ -363,18 +449,55 @@ theorem laplacian_eq (a l : Mat) (h : getLaplacian a = .ok l) :
 example : (getLaplacian ⟨2, 2, [[0, 2], [1, 3]]⟩).toOption = some ⟨2, 2, [[2, -2], [-1, 1]]⟩ := by decide +kernel
 example : (getLaplacian ⟨1, 2, [[0, 2]]⟩).toOption = none := by decide +kernel
 
-/-- **directed2undirected_denote**: `A + Aᵀ`, or the indicator of `A + Aᵀ ≠ 0`; always symmetric;
-refused for a non-square matrix. The dtype rule is `d2uDtype`. -/
+/-- **directed2undirected_denote**: `A + Aᵀ`, or the documented indicator of `max(A, Aᵀ) > 0` (an entry is 1 exactly
+when one of the two directions carries a positive weight; repair F16r); always symmetric; refused for a non-square
+matrix. The dtype rule is `d2uDtype`. -/
 theorem directed2undirected_denote (a m : Mat) (weighted : Bool) (h : directed2undirected a weighted = .ok m) :
     (∀ i j, i < a.nRow → j < a.nRow →
-      m.get i j = if weighted then a.get i j + a.get j i else (if a.get i j + a.get j i ≠ 0 then 1 else 0)) ∧
+      m.get i j = if weighted then a.get i j + a.get j i else (if 0 < a.get i j ∨ 0 < a.get j i then 1 else 0)) ∧
     (∀ i j, m.get i j = m.get j i) :=
   ⟨(directed2undirected_spec h).2.2.2.1, (directed2undirected_spec h).2.2.2.2⟩
+
+/-- on non-negative weights the pattern of `A + Aᵀ` (what the pinned code took) is the documented `max(A, Aᵀ) > 0`:
+the repair F16r changes the result only for negative weights -/
+theorem d2u_unweighted_nonneg (x y : Rat) (hx : 0 ≤ x) (hy : 0 ≤ y) : (x + y ≠ 0) ↔ (0 < x ∨ 0 < y) := by
+  constructor
+  · intro h
+    by_cases h1 : 0 < x
+    · exact Or.inl h1
+    · right
+      have : x = 0 := le_antisymm (not_lt.mp h1) hx
+      subst this
+      rcases lt_or_eq_of_le hy with h2 | h2
+      · exact h2
+      · exact absurd (by rw [← h2]; ring) h
+  · rintro (h | h) <;> intro h0 <;> linarith
+
+/-- … and they differ on a negative and on cancelling weights: `[[0, -1], [0, 0]]` has no edge, `[[0, 1], [-1, 0]]` has one -/
+example : (directed2undirected ⟨2, 2, [[0, -1], [0, 0]]⟩ false).toOption = some ⟨2, 2, [[0, 0], [0, 0]]⟩ := by decide +kernel
+example : (directed2undirected ⟨2, 2, [[0, 1], [-1, 0]]⟩ false).toOption = some ⟨2, 2, [[0, 1], [1, 0]]⟩ := by decide +kernel
+
+/-- **the spec lines of the format conversions and of tf-idf** evaluate the documented definitions entry by entry on
+the implementation's output (`D2USpec`, `B2DSpec`, `B2USpec`, `TfidfSpec` of Spec/Convert.lean, written without
+`Mat.block`, `Mat.add`, the pseudo-inverse or `normalize`); the models satisfy them for every tolerance -/
+theorem format_specs_hold (tol : Rat) (ht : 0 ≤ tol) (a m b count : Mat) (w : Bool) (logTable : List Rat)
+    (h : directed2undirected a w = .ok m) :
+    D2USpec tol a w m = true ∧ B2DSpec tol b (bipartite2directed b) = true ∧
+    B2USpec tol b (bipartite2undirected b) = true ∧ TfidfSpec tol count logTable (getTfidf count logTable) = true :=
+  ⟨d2uSpec_model tol ht a m w h, b2dSpec_model tol ht b, b2uSpec_model tol ht b, tfidfSpec_model tol ht count logTable⟩
+
+/-- the specifications are not vacuous: they reject a wrong output -/
+example : D2USpec 0 ⟨2, 2, [[0, -1], [0, 0]]⟩ false ⟨2, 2, [[0, 1], [1, 0]]⟩ = false := by decide +kernel
+example : B2DSpec 0 ⟨1, 1, [[2]]⟩ ⟨2, 2, [[0, 2], [2, 0]]⟩ = false := by decide +kernel
+example : B2USpec 0 ⟨1, 1, [[2]]⟩ ⟨2, 2, [[0, 2], [0, 0]]⟩ = false := by decide +kernel
+example : TfidfSpec 0 ⟨2, 1, [[2], [0]]⟩ [3, 1] ⟨2, 1, [[1], [0]]⟩ = false := by decide +kernel
+example : TfidfSpec 0 ⟨2, 1, [[2], [0]]⟩ [3, 1] ⟨2, 1, [[3], [0]]⟩ = true := by decide +kernel
 
 example : (directed2undirected ⟨2, 2, [[0, 2], [1, 3]]⟩ true).toOption = some ⟨2, 2, [[0, 3], [3, 6]]⟩ := by decide +kernel
 
 /-- the dtype rule of `directed2undirected(weighted=True)`: floating types stay floating (repaired: float32 went
-through `astype(int)`), everything else becomes int -/
+through `astype(int)`), everything else becomes int
+[a table read back by `rfl`: its content is the comparison of the harness with the dtype the code returns] -/
 theorem d2u_dtype_rule : d2uDtype .float64 = .float64 ∧ d2uDtype .float32 = .float64 ∧
     d2uDtype .int = .int ∧ d2uDtype .bool = .int := ⟨rfl, rfl, rfl, rfl⟩
 
